@@ -20,9 +20,15 @@ arr_real FIRInterpolator::process(const arr_real& in) {
     const int nd = d_.size();
 
     arr_real px(nd + nx);
-    std::memcpy(px.data(), d_.data(), nd * sizeof(real_t));
-    std::memcpy(px.data() + nd, in.data(), nx * sizeof(real_t));
-    std::memcpy(d_.data(), px.data() + nx, nd * sizeof(real_t));
+    if (nd > 0) {
+        std::memcpy(px.data(), d_.data(), nd * sizeof(real_t));
+    }
+    if (nx > 0) {
+        std::memcpy(px.data() + nd, in.data(), nx * sizeof(real_t));
+    }
+    if (nd > 0) {
+        std::memcpy(d_.data(), px.data() + nx, nd * sizeof(real_t));
+    }
 
     auto y = arr_real(nx * interp_);
     auto* py = y.data();
